@@ -242,6 +242,9 @@ func c07Units(tier string) []*Unit {
 		"cycle-2-deps-once":          {Tasks: []*T{{Name: "root", Deps: []Ref{{Task: "a", VP: "@"}}, Cmds: []C{P()}}, {Name: "a", Run: "once", Deps: []Ref{{Task: "b", VP: "@"}}}, {Name: "b", Run: "once", Deps: []Ref{{Task: "a", VP: "@"}}}}},
 		"cycle-2-calls-when-changed": {Tasks: []*T{{Name: "root", Cmds: []C{{Call: &Ref{Task: "a", VP: "@"}}}}, {Name: "a", Run: "when_changed", Cmds: []C{{Call: &Ref{Task: "b", VP: "@"}}}}, {Name: "b", Run: "when_changed", Cmds: []C{{Call: &Ref{Task: "a", VP: "@"}}}}}},
 		"cycle-2-calls":              {Tasks: []*T{{Name: "root", Cmds: []C{{Call: &Ref{Task: "a", VP: "@"}}}}, {Name: "a", Cmds: []C{{Call: &Ref{Task: "root", VP: "@"}}}}}},
+		// the cycle is entered at two points at once: each of the two executions ends up waiting for
+		// the other one
+		"cycle-2-deps-once-two-entries": {Tasks: []*T{{Name: "root", Deps: []Ref{{Task: "a", VP: "@"}, {Task: "b", VP: "@"}}, Cmds: []C{P()}}, {Name: "a", Run: "once", Deps: []Ref{{Task: "b", VP: "@"}}}, {Name: "b", Run: "once", Deps: []Ref{{Task: "a", VP: "@"}}}}},
 		// the cycle closes through a deferred task call (errors of deferred commands are ignored, so
 		// only termination is required of these)
 		"cycle-deferred-self-call-once": {Tasks: []*T{{Name: "root", Run: "once", Cmds: []C{{Defer: true, Call: &Ref{Task: "root", VP: "@"}}, P()}}}},
@@ -299,6 +302,9 @@ func c07Units(tier string) []*Unit {
 		for _, n := range []int{0, 1} {
 			sc := scen(fmt.Sprintf("%s/N%s", name, concName(n)), pg, vlab.Options{Concurrency: n}, "root")
 			b := 0
+			if strings.Contains(name, "two-entries") {
+				b = 2 // which of the two executions registers, waits and notices first is the point here
+			}
 			us = append(us, &Unit{Name: sc.Name, Sc: sc, Bound: b, Prune: false, Weight: 1, Check: func(x *vlab.Exec) []vlab.Violation {
 				out := generic("C07", x)
 				if x.Res.Deadlock {
